@@ -156,7 +156,10 @@ def run(ctx, chk):
             pk = ex.operand(wacks[0][1]["args"][1])
             wf = agg_named(pk, "zvt::feig::packets::WriteFile::WriteFile")
             inner = agg_named(pk, "zvt::feig::packets::tlv::WriteFile::WriteFile")
-            good = bool(wf) and bool(inner) and show(strip_ref(fld(inner[0], "files"))) == show(strip_ref(vec_arg)) and \
+            from discharge import unq as _unq
+            files_e = strip_ref(ex.select_variant(_unq(fld(inner[0], "files")))) if inner else None       # (`Ok(vec)` of a helper + `?`)
+            good = bool(wf) and bool(inner) and (show(strip_ref(fld(inner[0], "files"))) == show(strip_ref(vec_arg)) or
+                                                 show(files_e) == show(strip_ref(vec_arg))) and \
                 strip_ref(fld(wf[0], "password"))[0] == "path" and strip_ref(fld(wf[0], "password"))[1] == P_PASSWORD
             chk.require(good, "C11-b/manifest-sent", "WriteFile", "the packet sent does not carry the manifest vector / the caller's password",
                         "WriteFile{password, files}", wacks[0][1].get("sp"))
